@@ -21,7 +21,7 @@ CAND = {
 def databases(tier, tables=('t1', 't2', 't3'), schema=None, cand=None):
     """list of dict table -> list of rows. quick: every table content with <= 1 row per table on the first 4 candidates
     (full product) plus a covering set of larger databases; thorough: <= 2 rows per table over all candidates for the
-    first two tables (full product), t3 from a small set."""
+    first two tables (full product), the third table empty or with two rows."""
     cand = cand or CAND
     out = []
 
@@ -34,7 +34,7 @@ def databases(tier, tables=('t1', 't2', 't3'), schema=None, cand=None):
     if tier == 'quick':
         per = {t: subsets(cand[t][:4], 1) for t in tables}
     else:
-        per = {t: subsets(cand[t], 2) if t in tables[:2] else subsets(cand[t][:3], 1) for t in tables}
+        per = {t: subsets(cand[t], 2) if t in tables[:2] else [(), tuple(cand[t][:2])] for t in tables}
     for combo in itertools.product(*[per[t] for t in tables]):
         out.append({t: list(rows) for t, rows in zip(tables, combo)})
     # covering set: larger databases with all phenomena together
